@@ -152,6 +152,10 @@ fn cmp_admissible(u: &Uni, t: &Ty, op: CmpOp, rhs: &Rhs) -> bool {
         (Ty::Bytes, Contains, Rhs::Lit(Lit::Bytes(..))) => true,
         (Ty::Bytes, Matches, Rhs::Regex(..)) => true,
         (Ty::Bytes, Wildcard | StrictWildcard, Rhs::Lit(Lit::Bytes(_, f))) => !matches!(f, BytesForm::Hex(_)),
+        // an empty brace list is written `{}` whatever the type
+        (Ty::Int | Ty::Ip | Ty::Bytes, In, Rhs::IntSet(v)) if v.is_empty() => true,
+        (Ty::Int | Ty::Ip | Ty::Bytes, In, Rhs::IpSet(v)) if v.is_empty() => true,
+        (Ty::Int | Ty::Ip | Ty::Bytes, In, Rhs::BytesSet(v)) if v.is_empty() => true,
         (Ty::Int, In, Rhs::IntSet(_)) => true,
         (Ty::Ip, In, Rhs::IpSet(_)) => true,
         (Ty::Bytes, In, Rhs::BytesSet(_)) => true,
@@ -508,6 +512,9 @@ impl<'a> Env<'a> {
                 V::Bytes(h) => crate::rx::wildcard_match(p, h, true),
                 _ => unreachable!(),
             },
+            (CmpOp::In, Rhs::IntSet(items)) if items.is_empty() => false,
+            (CmpOp::In, Rhs::IpSet(items)) if items.is_empty() => false,
+            (CmpOp::In, Rhs::BytesSet(items)) if items.is_empty() => false,
             (CmpOp::In, Rhs::IntSet(items)) => match v {
                 V::Int(i) => items.iter().any(|it| it.lo <= *i && *i <= it.hi.unwrap_or(it.lo)),
                 _ => unreachable!(),
